@@ -16,15 +16,27 @@ Local Open Scope nat_scope.
 
 (* net.Addr of the accepted socket *)
 Inductive raddr :=
-| RTcp (ip : bytes)                 (* a net.TCPAddr with IP ip; [] = nil *)
-| RUdp (ip : bytes)                 (* a net.UDPAddr with IP ip *)
+| RTcp (ip : bytes) (zone : bytes)  (* a net.TCPAddr with IP ip ([] = nil) and Zone zone: "" for every global address, the
+                                       interface name / index ("eth0", "1") of a scoped one (a link-local fe80::/10 peer).  String() prints
+                                       a zoned address as [fe80::1%eth0]:port - which net.ParseIP does NOT accept: reading the IP from
+                                       the printed form instead of from the object loses exactly the zoned peers *)
+| RUdp (ip : bytes) (zone : bytes)  (* a net.UDPAddr with IP ip and Zone zone *)
 | ROther (parsed : option bytes).   (* any other net.Addr: net.ParseIP of (the host part of) its String() *)
 
 Definition nonnil (ip : bytes) : option bytes := match ip with [] => None | _ => Some ip end.
 
 Definition remote_ip (a : raddr) : option bytes :=
   match a with
-  | RTcp ip | RUdp ip => nonnil ip
+  | RTcp ip _ | RUdp ip _ => nonnil ip     (* addr.IP: the zone is not looked at *)
+  | ROther (Some ip) => nonnil ip
+  | ROther None => None
+  end.
+
+(* the REFUTED variant (second pass, seed C03g): the IP is taken from the address's printed form for every
+   address type; a non-empty zone makes the host part "ip%zone", which net.ParseIP rejects *)
+Definition remote_ip_printed (a : raddr) : option bytes :=
+  match a with
+  | RTcp ip z | RUdp ip z => match z with [] => nonnil ip | _ => None end
   | ROther (Some ip) => nonnil ip
   | ROther None => None
   end.
